@@ -22,7 +22,8 @@ func init() {
 			"hot initial stores are final states of a previous run of the same parameter set (any non-negative S<=x1, R, and unit-hydrograph stores)",
 		},
 		Workloads: []core.Workload{
-			{Name: "gr4j", Variant: "plain", N: core.Tiered(900, 150000), Run: c15Case},
+			{Name: "gr4j", Variant: "plain", N: core.Tiered(900, 150000), Run: func(c *core.Ctx) { c15Run(c, false) }},
+			{Name: "gr4j-long", Variant: "plain", N: core.Tiered(40, 1500), Run: func(c *core.Ctx) { c15Run(c, true) }, TimeoutS: 600},
 			// several cells with different x4 in one state array (rows padded to the widest), simulated as consecutive
 			// windows that carry the states, on Go-backed arrays or caller-owned C buffers; every cell against its own reference
 			{Name: "gr4j-multicell", Variant: "plain", N: core.Tiered(360, 20000), Run: c15Multi},
@@ -46,9 +47,12 @@ func gr4jParams(r *core.Rand) (x1, x2, x3, x4 float64) {
 	return
 }
 
-func c15Case(c *core.Ctx) {
+func c15Run(c *core.Ctx, long bool) {
 	x1, x2, x3, x4 := gr4jParams(c.R)
 	T := c.R.IntRange(5, 120)
+	if long {
+		T = c.R.IntRange(2100, 6000) // one call over 6-16 years of daily steps
+	}
 	rain, pet := rainSeries(c.R, T), petSeries(c.R, T)
 	rrPatterns(c.R, rain, pet)
 	hot := c.R.Bool(0.4)
